@@ -161,3 +161,24 @@ instance : NumT Float where
   finite _ := true
 
 end Cm
+
+namespace Cm
+/-- Order laws used by the monotonicity / bound theorems. `Rat` and `ℝ` satisfy them by proof;
+`Float` satisfies them on non-NaN values (trusted base; the harness checks that no recorded
+leaf value is NaN). -/
+class LawfulNumOrd (α : Type) [Num α] : Prop where
+  le_refl  : ∀ a : α, Num.le a a = true
+  le_trans : ∀ a b c : α, Num.le a b = true → Num.le b c = true → Num.le a c = true
+  le_total : ∀ a b : α, Num.le a b = true ∨ Num.le b a = true
+  lt_iff   : ∀ a b : α, Num.lt a b = true ↔ Num.le b a = false
+end Cm
+
+namespace Cm
+/-- Decimal literals keep their order: `m·10^-e ≤ m'·10^-e'` (stated over `Nat`) implies `le` on
+the carrier. True of `Rat`/`ℝ` by proof; of `Float` because correctly rounded conversion is
+monotone (trusted base). This is what lets "every entry of the default schedule is ≤ 5.0" be a
+`decide` and still bound the carrier's values. -/
+class LawfulLit (α : Type) [Num α] : Prop where
+  lit_le : ∀ m e m' e' : Nat, m * 10 ^ e' ≤ m' * 10 ^ e →
+    Num.le (OfScientific.ofScientific m true e : α) (OfScientific.ofScientific m' true e' : α) = true
+end Cm
